@@ -22,23 +22,42 @@ def address_reviewed(repo: Repo, entry_modules: tuple[str, ...]) -> dict:
     """`Address out of range` cannot fire when the constructor argument is a 16-bit quantity: validator = every
     from_knx / constructor call on the decode paths passes a 2-octet slice, an '!H' struct field or a masked value."""
     def validator() -> bool:
+        import re as _re
         ok = True
+        seen = 0
         for m in entry_modules:
             for f in repo.all_functions():
                 if f.module.name != m:
                     continue
                 for c in calls(f.node):
                     n = call_name(c)
+                    a = c.args[0] if c.args else None
                     if n in ("IndividualAddress.from_knx", "GroupAddress.from_knx"):
-                        a = c.args[0] if c.args else None
-                        if not (isinstance(a, ast.Subscript) and isinstance(a.slice, ast.Slice)):
-                            ok = False
-                            continue
-                        lo = repo.fold(a.slice.lower, f.module, f.cls) if a.slice.lower is not None else 0
-                        hi = repo.fold(a.slice.upper, f.module, f.cls) if a.slice.upper is not None else None
-                        if not (isinstance(lo, int) and isinstance(hi, int) and hi - lo == 2):
-                            ok = False
-        return ok
+                        seen += 1
+                        good = False
+                        if isinstance(a, ast.Subscript) and isinstance(a.slice, ast.Slice) and a.slice.lower is not None and a.slice.upper is not None:
+                            lo = repo.fold(a.slice.lower, f.module, f.cls)
+                            hi = repo.fold(a.slice.upper, f.module, f.cls)
+                            if isinstance(lo, int) and isinstance(hi, int) and hi - lo == 2:
+                                good = True
+                            elif ast.unparse(a.slice.upper) == f"{ast.unparse(a.slice.lower)} + 2":
+                                good = True  # raw[i : i + 2]: at most two octets
+                        ok = ok and good
+                    elif n in ("IndividualAddress", "GroupAddress") and f.name == "from_knx":
+                        seen += 1
+                        good = False
+                        if isinstance(a, ast.Name):
+                            for st in ast.walk(f.node):
+                                if isinstance(st, ast.Assign) and isinstance(st.value, ast.Call) and call_name(st.value) == "struct.unpack" and st.value.args:
+                                    fmt = repo.fold(st.value.args[0], f.module, f.cls)
+                                    tg = st.targets[0]
+                                    if isinstance(fmt, str) and isinstance(tg, (ast.Tuple, ast.List)):
+                                        codes = [code for cnt, code in _re.findall(r"(\d*)([xcbB?hHiIlLqQnNefdspP])", fmt.lstrip("@=<>!")) if code != "x" for _ in range(int(cnt) if cnt and code not in "sp" else 1)]
+                                        for el, code in zip(tg.elts, codes):
+                                            if isinstance(el, ast.Name) and el.id == a.id and code in "BH":
+                                                good = True
+                        ok = ok and good
+        return ok and seen > 0
     reason = "the constructor argument on every decode path is a 16-bit quantity (2-octet slice / '!H' field), so 0 <= raw <= 65535 always holds"
     return {
         "CouldNotParseAddress|IndividualAddress.__init__|raise CouldNotParseAddress(address, message='Address out of range (0..65535)')": (reason, validator),
